@@ -10,7 +10,7 @@ EXPLANATION = ("Static MIR census over the workspace (mla, mlar, mla-bindings-c)
                "(R13.4) an `impl Read::read` returning a count produced by BrotliDecompressStream excludes 0 before returning Ok(count) mid-stream. "
                "(R13.5) every block decompressor of the compression reader is built on an inner reader that sync_inner_with_uncompressed_pos has just positioned absolutely "
                "(never where the previous decompressor happened to stop); (R13.6) a stream that delivered exactly UNCOMPRESSED_DATA_SIZE bytes is still handed to the decoder; (R13.7) = R10.5; "
-               "(R13.8) on the write path (everything reachable from the writer layers' `impl Write`) no io::Error is rebuilt from a received io::Error without taking over its kind(): `Interrupted` from the destination stays retryable for write_all / io::copy / brotli. Equality of the resulting archives is runtime and not decided.")
+               "(R13.9) the count returned by a raw read is only ever compared with 0 (a short count is not the end of the source); (R13.8) on the write path (everything reachable from the writer layers' `impl Write`) no io::Error is rebuilt from a received io::Error without taking over its kind(): `Interrupted` from the destination stays retryable for write_all / io::copy / brotli. Equality of the resulting archives is runtime and not decided.")
 TRUSTED = ['brotli: BrotliResult::NeedsMoreOutput is returned only when the output window is full', 'rustc MIR', 'std::io::Write::write_all / io::copy / Read::read_exact / read_to_end loop over partial transfers and retry Interrupted', 'byteorder, bincode use the complete forms']
 ASSUMPTIONS = ['a sink or source respects the Read/Write contracts (count <= buffer length)']
 
